@@ -12,6 +12,10 @@ import (
 //	x presentation(24) x grant registered for the client(2, where a grant is involved) x grant / capability enabled(2, where a flag exists)
 //	x AuthMethodPost flag(2) x key registered(2) x jwt-bearer grant assertion(7 kinds, that target only)
 //	x stored secret for private_key_jwt / public clients(2)
+//	x one optional parameter: token exchange requested_token_type(absent, refresh_token, id_token); client_credentials and device
+//	  authorization scope(default, absent); refresh scope(absent, narrowing)
+//	x (targets with material of one client, grant registered and enabled) material owned by the named client / by the other client with
+//	  the other client's id riding along as a conflicting client_id where the presentation has none of its own
 //
 // and, with wide=true (thorough tier), additionally application type(3) x id/secret needing percent-encoding(2).
 // The remaining axes (conflicting client_id, parameters in the URL, private_key_jwt flag, storage faults, token_type_hint,
@@ -57,6 +61,16 @@ func sweepCells(wide bool) []Case {
 				if tg.grant == vkit.GBearer {
 					gas = []string{"right", "wrongkey", "unknownkid", "otheriss", "expired", "wrongaud", "ghost"}
 				}
+				// optional parameter that selects another path through the token-exchange handler
+				optsAxis := []*Opts{nil}
+				switch {
+				case tg.grant == vkit.GTE:
+					optsAxis = []*Opts{nil, {ReqType: "refresh"}, {ReqType: "id"}}
+				case tg.grant == vkit.GCC, tg.endpoint == "device_authorization":
+					optsAxis = []*Opts{nil, {Scope: "-"}} // scope absent
+				case tg.grant == vkit.GRefr:
+					optsAxis = []*Opts{nil, {Scope: "openid"}} // scope present (narrowing)
+				}
 				for _, pres := range presentations {
 					for _, reg := range regs {
 						for _, en := range enabled {
@@ -86,9 +100,24 @@ func sweepCells(wide bool) []Case {
 														}
 													}
 													c.Reg.AuthMethod, c.Reg.AppType, c.Reg.HasKeys, c.Reg.Special = m, app, keys, sp
-													c.Reg.Service = has(c.Reg.Grants, vkit.GCC)
+													// client_credentials target: a service account whether or not the grant is registered, so that the grant check stands alone
+													c.Reg.Service = has(c.Reg.Grants, vkit.GCC) || tg.grant == vkit.GCC
 													c.Reg.StoredSecret = stored
-													out = append(out, c)
+													for _, o := range optsAxis {
+														cc := c
+														cc.Opts = o
+														out = append(out, cc)
+													}
+													// the same request carrying the OTHER client's material (the other client: confidential web client that is
+													// never authenticated), its client_id riding along where the presentation leaves room for one
+													if reg && en && ownerMaterial(c) {
+														cc := c
+														cc.Owner = "other"
+														if riderable(pres) {
+															cc.BodyID = "other"
+														}
+														out = append(out, cc)
+													}
 												}
 											}
 										}
@@ -143,7 +172,7 @@ func TestSweep(t *testing.T) {
 	if shard == 0 {
 		rec.SetExtra("sweep_cells_total", len(cells))
 		if wide {
-			rec.SetExtra("sweep_exhaustive", "router x auth method x target x presentation x registered x enabled x post flag x key x grant assertion x stored secret x app type x special characters")
+			rec.SetExtra("sweep_exhaustive", "router x auth method x target x presentation x registered x enabled x post flag x key x grant assertion x stored secret x optional parameter (requested_token_type / scope) x own / other client's material x app type x special characters")
 		} else {
 			rec.SetExtra("sweep_exhaustive", "no: quick tier runs every 12th cell of the narrow enumeration")
 		}
